@@ -45,6 +45,10 @@ type unb struct {
 	cancelled  bool
 	sndClosed  bool
 	maxBacklog int
+	parStarted map[int]bool // values handed to independent one-shot senders
+	parDone    map[int]bool // ... whose send returned
+	parSeen    map[int]bool
+	chainGot   int
 	refills    int
 }
 
@@ -112,8 +116,16 @@ func (u *unb) recv() (bool, string) {
 			return true, ""
 		}
 		u.got = append(u.got, v)
-		if v != len(u.got) {
-			return true, fmt.Sprintf("received %v: want 1,2,3,... in send order (lost, duplicated, reordered or invented value)", u.got)
+		if v >= parBase {
+			if !u.parStarted[v] || u.parSeen[v] {
+				return true, fmt.Sprintf("received %v: %d was never sent or is delivered twice", u.got, v)
+			}
+			u.parSeen[v] = true
+			return true, ""
+		}
+		u.chainGot++
+		if v != u.chainGot {
+			return true, fmt.Sprintf("received %v: the values of the sequential sender must arrive as 1,2,3,... (lost, duplicated, reordered or invented value)", u.got)
 		}
 		u.mu.Lock()
 		c := u.completed
@@ -131,6 +143,25 @@ func (u *unb) do(m Move) string {
 		u.send(1)
 	case "burst":
 		u.send(max(m.M, 1))
+	case "par":
+		// M independent senders, one value each: several goroutines can be parked on the send side at once
+		if u.cancelled && u.allDone() || u.sndClosed {
+			return ""
+		}
+		for k := 0; k < max(m.M, 1); k++ {
+			v := parBase + len(u.parStarted)
+			u.parStarted[v] = true
+			go func() {
+				defer func() { recover() }()
+				select {
+				case u.snd <- v:
+					u.mu.Lock()
+					u.parDone[v] = true
+					u.mu.Unlock()
+				case <-u.envStop:
+				}
+			}()
+		}
 	case "recv":
 		_, msg := u.recv()
 		return msg
@@ -180,7 +211,10 @@ func (u *unb) do(m Move) string {
 
 func runUnbound(sc *Scenario) (res Result) {
 	ctx, cancel := context.WithCancel(context.Background())
-	u := &unb{sc: sc, cancel: cancel, envStop: make(chan struct{})}
+	u := &unb{sc: sc, cancel: cancel, envStop: make(chan struct{}), parStarted: map[int]bool{}, parDone: map[int]bool{}, parSeen: map[int]bool{}}
+	if sc.Gated {
+		warmUp(sc.Caps0())
+	}
 	u.rcv, u.snd = pipe.New[int](ctx, sc.Caps0())
 	fail := func(m string) Result {
 		res.Msg = m
@@ -218,6 +252,10 @@ func runUnbound(sc *Scenario) (res Result) {
 		u.mu.Lock()
 		completed := u.completed
 		u.mu.Unlock()
+		u.mu.Lock()
+		completed += len(u.parDone)
+		pending := len(u.parStarted) - len(u.parDone)
+		u.mu.Unlock()
 		backlog := completed - len(u.got)
 		if backlog > u.maxBacklog {
 			u.maxBacklog = backlog
@@ -226,7 +264,7 @@ func runUnbound(sc *Scenario) (res Result) {
 			u.refills++
 		}
 		// a send never waits for the receiver: at quiescence every started send has returned
-		if !wasCancelled && !u.cancelled && !u.allDone() {
+		if !wasCancelled && !u.cancelled && (!u.allDone() || pending > 0) {
 			return fail(fmt.Sprintf("a send is still blocked at quiescence: %d sends started, %d completed, %d received - the sender waits for the receiver", u.started, completed, len(u.got)))
 		}
 	}
@@ -255,6 +293,15 @@ func runUnbound(sc *Scenario) (res Result) {
 	if !u.closed {
 		return fail(fmt.Sprintf("after %s and a full drain the receive side is empty but not closed (received %d of %d completed sends)", map[bool]string{true: "close by the sender", false: "cancel"}[u.sndClosed], len(u.got), completed))
 	}
+	u.mu.Lock()
+	for v := range u.parDone {
+		if !u.parSeen[v] {
+			u.mu.Unlock()
+			return fail(fmt.Sprintf("the send of %d (one of %d independent senders) completed but the value was never delivered before the receive side closed (cap=%d, cancelled=%v); received %v", v, len(u.parStarted), sc.Caps0(), u.cancelled, u.got))
+		}
+	}
+	completed += len(u.parDone)
+	u.mu.Unlock()
 	if len(u.got) != completed {
 		return fail(fmt.Sprintf("%d sends completed but only %v were delivered before the receive side closed (cap=%d, cancelled=%v, closed by sender=%v)", completed, u.got, sc.Caps0(), u.cancelled, u.sndClosed))
 	}
@@ -263,4 +310,27 @@ func runUnbound(sc *Scenario) (res Result) {
 	res.CancelBlocked = u.refills >= 2
 	cancel()
 	return res
+}
+
+const parBase = 100000
+
+// warmUp runs a pipe of ANOTHER element type through a few values and shuts it down, so that state shared
+// between instantiations of the generic queue (a common node pool, say) would be left behind for the pipe under test.
+func warmUp(capacity int) {
+	ctx, cancel := context.WithCancel(context.Background())
+	rcv, snd := pipe.New[string](ctx, capacity)
+	done := make(chan struct{})
+	go func() {
+		defer close(done)
+		for _, s := range []string{"a", "b", "c"} {
+			snd <- s
+		}
+	}()
+	for i := 0; i < 3; i++ {
+		<-rcv
+	}
+	<-done
+	cancel()
+	for range rcv {
+	}
 }
